@@ -1150,6 +1150,7 @@ SHIM_NOTES = [
     "Operator2 argument dtype validation (_init_arg_types) is skipped for symbolic arguments",
     "autoray backend alias: SymC scalars dispatch to numpy",
     "default.qubit create_initial_state result viewed as dtype=object",
+    "qp.math.norm of an object array: sqrt(sum x*conj(x)) with sqrt introduced by its defining equation",
     "qp.math.allclose/isclose on symbolic data are exact equalities (the |x|<=atol slab is outside the claim)",
     "float angle constants within 2e-10 (relative to pi) of a multiple of pi/96 are read as that exact multiple (the library rounds shifts to 10 decimals)",
     "PauliSentence.dot keeps an object buffer for object-dtype vectors (np.zeros_like in pennylane.pauli.pauli_arithmetic)",
@@ -1259,6 +1260,32 @@ def install_shims():
 
     for fname in ("sqrt", "cos", "sin", "exp"):
         autoray.register_function("numpy", fname, _elementwise(fname, getattr(np, fname)))
+
+    # --- vector / Frobenius norm of object arrays: sqrt(sum |x|^2)  (scipy's norm squares complex entries without conjugation)
+    import sys as _sys
+
+    importlib.import_module("pennylane.math.multi_dispatch")
+    pmd = _sys.modules["pennylane.math.multi_dispatch"]
+
+    orig_norm = pmd.norm
+
+    def norm(tensor, like=None, **kwargs):
+        if symbolic(tensor) and kwargs.get("ord") is None and kwargs.get("axis") is None:
+            flat = np.asarray(tensor, dtype=object).ravel()
+            tot = 0
+            for v in flat:
+                if isinstance(v, SymC):
+                    tot = tot + v * v.conjugate()
+                else:
+                    v = complex(v.item() if hasattr(v, "item") else v)
+                    tot = tot + (v.real * v.real + v.imag * v.imag)
+            if isinstance(tot, SymC):
+                return tot.real.sqrt() if not tot.is_real_syntactic() else tot.sqrt()
+            return math.sqrt(tot)
+        return orig_norm(tensor, like=like, **kwargs) if like is not None else orig_norm(tensor, **kwargs)
+
+    pmd.norm = norm
+    pm.norm = norm
 
     # --- autoray astype on object arrays
     try:
